@@ -109,14 +109,14 @@ fn negation_tree<T: Scalar>(kind: Kind, n: usize, alpha: &[f64], depth: usize, s
 
 pub fn run(ctx: &Ctx) -> CheckOutput {
     let quick = ctx.tier == Tier::Quick;
-    let n_max = if quick { 5 } else { 8 };
+    let n_max = if quick { 5 } else { 10 };
     let cap = if quick { 150_000 } else { 2_000_000 };
     let mut jobs: Vec<Job> = vec![];
     for kind in [Kind::Rsi, Kind::MyRsi] {
         for n in 1..=n_max {
             let spec = Spec::un(kind, n, Spec::echo());
             for (alpha, depth) in [
-                (Z3.to_vec(), (n + 5).min(if quick { 9 } else { 11 })),
+                (Z3.to_vec(), (n + 5).min(if quick { 9 } else { 12 })),
                 (Z5.to_vec(), (n + 3).min(if quick { 7 } else { 8 })),
             ] {
                 {
